@@ -57,6 +57,22 @@ CHECKS = {
         note="Trusted: TLC, lib/gen_tonl.py, the in-process driver.",
         technique="TLA+ model (PackageOnly.tla) checked by TLC; TLC-enumerated programs replayed into the real analyzers (in-process, binary, go vet)",
         design="5/C04"),
+    "C12": dict(
+        text="In the four checker specifications the expected diagnostics are a function of each declaration alone (Exact is checked by TLC "
+             "over all sequences of 2-3 declarations distributed over 1-2 files), which is layout-independence at model level; TLC also shows "
+             "that it fails as soon as the walk context is not reset (LeakWalkState). Binding: TLC-enumerated programs are analysed as "
+             "generated and after random compositions of the listed transformations (permute, move between files, comments, blank lines, "
+             "mis-format + gofmt, rename locals) and compared in layout-invariant keys.",
+        note="Trusted: TLC, lib/layout.py (transformed programs must still type-check, else exit 2), the in-process driver.",
+        technique="TLA+ models (Immutable/Constructor/TestOnly/PackageOnly.tla) checked by TLC; metamorphic replay of TLC-enumerated programs under layout transformations",
+        design="5/C12"),
+    "C13": dict(
+        text="In the four checker specifications a use site carries a spelling attribute that the verdict never consults (Exact over the "
+             "'spell' spaces), and TLC shows the invariant fails when aliases are not resolved (NoUnalias). Binding: every (use-site kind x "
+             "spelling) scenario and its directly spelled twin are concretised and analysed by the real analyzers; a sample through the binary and go vet.",
+        note="Trusted: TLC, the generators (type-checked programs), the in-process driver. Third-package aliases with the declaring package imported directly.",
+        technique="TLA+ models checked by TLC; replay of TLC-enumerated (use site x spelling) programs and their direct-spelling twins",
+        design="5/C13"),
 }
 
 NOT_YET = "check not built yet in this session; the property is in scope of the TLA+ specification (see DESIGN.md section 5) and will be claimed when its replay binding is in place"
